@@ -163,6 +163,16 @@ func init() {
 		}
 		return in.sameState(x.t, x.v, y.v, 0)
 	})
+	reg("reflect.DeepEqual", func(in *Interp, fr *frame, a []Value) Value {
+		x, y := a[0].(Iface), a[1].(Iface)
+		if x.t == nil || y.t == nil {
+			return Bool(x.t == nil && y.t == nil)
+		}
+		if !types.Identical(x.t, y.t) {
+			return tFalse
+		}
+		return in.deepEqual(x.t, x.v, y.v, 0)
+	})
 	reg("net.ParseIP", func(in *Interp, fr *frame, a []Value) Value {
 		switch s := a[0].(type) {
 		case string:
